@@ -137,6 +137,7 @@ type Conn struct {
 	ID         int
 	Peer       Peer
 	Chunked    bool // deliver every Write in two chunks with a scheduling point in between
+	FailWrites bool // every Write fails with an error and reaches nobody, while the read side stays open and silent (half-dead link)
 	Stalled    bool // the peer stopped reading and the send buffer is full: Write blocks until the transport is closed locally
 	in         []byte
 	eof        bool
@@ -193,7 +194,7 @@ func (c *Conn) Write(p []byte) (int, error) {
 	w := c.nwrite
 	c.nwrite++
 	vrt.Event(unsafe.Pointer(c), vrt.HashBytes(p))
-	if c.closed || c.dead || c.eof {
+	if c.closed || c.dead || c.eof || c.FailWrites {
 		// a transmission attempt that cannot reach the peer; still part of the trace (C12 judges attempts)
 		note := NotSent + "write on transport closed by the client fails"
 		err := c.closedErr()
